@@ -32,7 +32,8 @@ func buildUniversalDB() *chsim.DB {
 		{3, map[string]string{"a": "z", "c": "d"}},
 		{4, map[string]string{"a": "b", "job": "x", "__name__": "up"}},
 	}
-	lines := []string{"a.b", "axb", "ABC", "abc", "A+C", "AAC", "a+c", "a$b x", "x", "z x", `{"y":"1","x":"y"}`, `{"y":"7"}`, "x=1 y=2", "x%_y", "it's"}
+	lines := []string{"a.b", "axb", "ABC", "abc", "A+C", "AAC", "a+c", "a$b x", "x", "z x", `{"y":"1","x":"y"}`, `{"y":"7"}`, "x=1 y=2", "x%_y", "it's",
+		"500 GET /x", "404 POST /y", `{"code":"500","y":"1"}`, `{"code":"404"}`, "code=500 x=1"}
 	var ts, smp [][]chsim.Value
 	for _, d := range []string{"2024-03-10", "2024-03-11"} {
 		for _, s := range ss {
@@ -43,7 +44,7 @@ func buildUniversalDB() *chsim.DB {
 	for _, off := range []int64{0, 13 * 3600, 26 * 3600} {
 		for i, s := range ss {
 			for j, l := range lines {
-				t := (baseFrom.Unix()+off)*1e9 + int64(3+i+4*j)*1e9
+				t := (baseFrom.Unix()+off)*1e9 + int64(3+i+4*j)*1e9 // 20 lines x 4 streams inside the 5-minute window
 				smp = append(smp, []chsim.Value{s.fp, t, float64(j + 1), l, uint64(1)})
 			}
 		}
